@@ -26,6 +26,9 @@
 // leaves behind. DialAsyncTimeout keeps the dial timeout in the write-deadline slot; once the dial
 // has reported success no close may carry ErrDialTimeout and no timer may be armed.
 //
+// Origins dialcb / dialTcb (after seeded change C16-m8) issue the operation list INSIDE the dial
+// callback. udp.go (after C16-m7) covers the read timeout of UDP sessions.
+//
 // The second half (keepalive.go) drives a real nbhttp.Engine with KeepaliveTime = 7 s.
 package main
 
